@@ -133,9 +133,27 @@ def val(env, formula, vars=None):
                 raise ChannelDiff(fail('%s with %s gives %r, but %s with the same values delivered by the cell listener (%s) '
                                        'gives %r' % (formula, dict((k, enc(v)) for k, v in vars.items()), o1, text,
                                                      dict((k, enc(v)) for k, v in cells.items()), o2), o1, o2))
+        # ... and a date-time that arrives as a one-cell range or a one-item list is that date-time for the functions the
+        # statement names (under + - the result keeps the shape of the operand, so the operators are left to C06)
+        if _CH['n'] % 4 == 1 and ONE_VALUE_FORM.match(formula):
+            o1 = env.out(r)
+            text, cells = via_cells(formula, vars)
+            ranged = re.sub(r'(Q\d+)', r'\1:\1', text)
+            wraps = [('the one-cell range', ranged, None, dict(('%s:%s' % (k, k), [[v]]) for k, v in cells.items())),
+                     ('a one-item list', formula, dict((k, [v]) for k, v in vars.items()), None),
+                     ('a one-item row of a one-item list', formula, dict((k, [(v,)]) for k, v in vars.items()), None)]
+            kind, text2, vars2, cells2 = wraps[(_CH['n'] // 4) % 3]
+            o2 = env.evo(text2, vars2, None, cells2)
+            if o1 != o2:
+                raise ChannelDiff(fail('%s with %s gives %r, but with every value delivered as %s (%s) it gives %r: one cell '
+                                       'is one value' % (formula, dict((k, enc(v)) for k, v in vars.items()), o1, kind, text2, o2),
+                                       o1, o2))
     if isinstance(r, dict) and len(r) == 2 and r.get('error', 0) is None and 'result' in r:
         return r['result'], None
     return None, env.out(r)
+
+
+ONE_VALUE_FORM = re.compile(r'^(N|DATEVALUE|DAYS)\((x\w+)(,x\w+)?\)$')
 
 
 def show(v, bad):
